@@ -41,8 +41,10 @@ doc=''
 for p in parts:
     s=open(p).read()
     s=s.replace('<<MUTANTS_TABLE>>',mutants_table()).replace('<<SEEDED_TABLE>>',seeded_table('seeded','round 1'))
-    if '<<SEEDED2_TABLE>>' in s:
-        s=s.replace('<<SEEDED2_TABLE>>',seeded_table('seeded2','round 2') if os.path.isdir(f'{V}/seeded2') else '(none yet)\n')
+    for n in (2,3,4):
+        tag=f'<<SEEDED{n}_TABLE>>'
+        if tag in s:
+            s=s.replace(tag,seeded_table(f'seeded{n}',f'round {n}') if os.path.isdir(f'{V}/seeded{n}') else '(none yet)\n')
     doc+=s.rstrip('\n')+'\n\n'
 open(f'{V}/DESIGN.md','w').write(doc)
 print('DESIGN.md', len(doc.splitlines()), 'lines')
